@@ -698,6 +698,10 @@ type Line struct {
 	Conf      *JConf         `json:"conf"`
 	Objs      JObjs          `json:"objs"`
 	Targets   []string       `json:"targets"` // objects an UpdateRequest was issued for
+	// handler stream only (see handler.go)
+	PrepErr  *bool  `json:"prepErr,omitempty"`  // the reload result the REAL handler passed to status preparation
+	FailKind string `json:"failKind,omitempty"` // why reloadErr (the truth) is set: apply-failed | stale-after-plus-endpoints-only-update
+	H        *HInfo `json:"h,omitempty"`        // batch history so far (input + observations for the Lean handler model)
 	Tags      map[string]int `json:"tags,omitempty"`
 }
 
